@@ -78,6 +78,54 @@ fn crud_vec() -> usize {
     bad
 }
 
+/// laws over nested values and multi-segment paths (small exhaustive domain)
+fn crud_paths() -> usize {
+    let ev = |json: &str| -> Value { serde_json::from_str::<serde_json::Value>(json).map(Value::from).unwrap() };
+    let values = [r#"{"a": {"b": 1, "c": [10, 20]}, "d": [ {"e": 5}, 7 ]}"#, r#"[[1, 2], {"a": 3}, 4]"#, r#"{"a": 1}"#, "5", "[]", "{}"];
+    let segs: Vec<OwnedSegment> = vec![OwnedSegment::field("a"), OwnedSegment::field("b"), OwnedSegment::field("d"), OwnedSegment::index(0), OwnedSegment::index(1), OwnedSegment::index(-1), OwnedSegment::index(-3)];
+    let mut paths: Vec<OwnedValuePath> = vec![];
+    for a in &segs { paths.push(OwnedValuePath::from(vec![a.clone()])); for b in &segs { paths.push(OwnedValuePath::from(vec![a.clone(), b.clone()])); } }
+    let mut bad = 0;
+    for vj in values {
+        for p in &paths {
+            let base = ev(vj);
+            let case = format!("value {} path {}", vj, p);
+            // get through a non-container finds nothing: if a proper prefix reads a scalar, the path reads nothing
+            let before = base.get(p).cloned();
+            // remove returns what get returned
+            for prune in [false, true] {
+                let mut v = base.clone();
+                let removed = v.remove(p, prune);
+                if removed != before {
+                    bad += 1;
+                    fail("crud_paths", &format!("{case} remove(prune={prune})"), &format!("returns {:?}", before), &format!("{:?}", removed));
+                }
+                if before.is_none() && v != base {
+                    bad += 1;
+                    fail("crud_paths", &format!("{case} remove(prune={prune})"), "removing a missing path changes nothing", &v.to_string());
+                }
+            }
+            // insert then get
+            let mut v = base.clone();
+            v.insert(p, Value::Integer(99));
+            if v.get(p) != Some(&Value::Integer(99)) {
+                bad += 1;
+                fail("crud_paths", &format!("{case} insert 99"), "get after insert == 99", &format!("{:?} in {}", v.get(p), v));
+            }
+            // frame: a sibling field of the root object that the path does not start with is unchanged
+            for f in ["a", "d"] {
+                let sib = OwnedValuePath::from(vec![OwnedSegment::field(f)]);
+                let starts_with_f = matches!(p.segments.first(), Some(OwnedSegment::Field(k)) if k.as_str() == f);
+                if base.is_object() && !starts_with_f && matches!(p.segments.first(), Some(OwnedSegment::Field(_))) && v.get(&sib) != base.get(&sib) {
+                    bad += 1;
+                    fail("crud_paths", &format!("{case} insert 99"), &format!("sibling .{f} unchanged"), &v.to_string());
+                }
+            }
+        }
+    }
+    bad
+}
+
 /// (program, expected Ok(result-as-json) or Err(prefix))
 fn expect_programs(unit: &str, cases: &[(&str, Result<&str, &str>)]) -> usize {
     let mut bad = 0;
@@ -124,6 +172,12 @@ fn closure_scope() -> usize {
         cases.push((src, Ok(if pnames.len() == 2 { "[\"outer\", \"outer\"]" } else { "[\"outer\"]" })));
     }
     let mut bad = 0;
+    for src in ["for_each([1]) -> |_i, v| { v }\nv", "x = map_values({\"a\": 1}) -> |val| { val }\nval", "filter([1]) -> |idx, _v| { true }\nidx"] {
+        if !matches!(run_vrl(src, Value::Object(BTreeMap::new())), Err(e) if e.starts_with("compile error")) {
+            bad += 1;
+            fail("closure_scope", src, "rejected at compile time: the closure parameter is not visible after the call", "accepted");
+        }
+    }
     for (src, want) in &cases {
         // `_r, _e =` is rejected when the call cannot fail: fall back to plain assignment
         let mut got = run_vrl(src, Value::Object(BTreeMap::new()));
@@ -500,6 +554,7 @@ fn main() {
     let unit = std::env::args().nth(1).unwrap_or_default();
     let bad = match unit.as_str() {
         "crud_vec" => crud_vec(),
+        "crud_paths" => crud_paths(),
         "closure_scope" => closure_scope(),
         "ctl_programs" => ctl_programs(),
         "format_int" => format_int(),
